@@ -150,6 +150,9 @@ func RunHistory(rng *common.Rng, cfg Config) (*Run, error) {
 	nmsg := 0
 
 	mutating := func(o Op) bool {
+		if o.RO {
+			return false // refused, or a fetch that marks nothing
+		}
 		switch o.Cmd {
 		case "append", "store", "expunge", "copy", "move", "fetchbody", "fetchflagsbody":
 			return o.Kind == "cmd"
